@@ -49,6 +49,7 @@ def run(ctx: Context) -> None:
     ctx.rule('R05.2', "extract_points looks every point up once in request order; 'error' raises with exactly the positions whose lookup is None; the selected indexes and their positional labels are the same sequence under the same `is not None` filter", floor=8)
     ctx.rule('R05.3', "missing-point policy tables agree between select_points, extract_points, extract_dataframe and the command line; 'error' is forwarded, the others mean drop; the merge is outer exactly for 'fill'", floor=6)
     ctx.rule('R05.4', "single-index selection uses a fresh dimension name and squeezes exactly that dimension", floor=4)
+    ctx.rule('R05.6', "the columns of the input table are attached by row position: the table is re-indexed 0..n-1 (the labels extract_points gives its points) before it is merged, whatever index the DataFrame carries", floor=2)
     ctx.rule('R05.5', "point selection finds the cell through Convention.get_index_for_point: an 'intersects' query of the point itself, the first (lowest) hit wound to the native index, and no way to answer None other than an empty hit set (facts shared with C04 R04.1-R04.4)", floor=9)
     from . import c04 as _c04
     from .common import share_obligations as _share
@@ -439,12 +440,43 @@ def run(ctx: Context) -> None:
 
 
 
+    # ------------------------------------------------------------------ R05.6 table rows by position
+    with ctx.section('R05.6'):
+        d2d = ctx.func(f"{PX}._dataframe_to_dataset")
+        dflow = ctx.flow(d2d)
+        tox = [c for c in method_calls(d2d, 'to_xarray')]
+        ctx.need('R05.6', len(tox) == 1, "_dataframe_to_dataset converts the table with DataFrame.to_xarray()", d2d)
+        positional = False
+        how = 'the index of the caller\'s table is kept'
+        for n, _ in dflow.expand(tox[0].func.value):
+            if isinstance(n, ast.Call) and isinstance(n.func, ast.Attribute) and n.func.attr == 'reset_index':
+                drop = kwarg(n, 'drop')
+                if drop is not None and const_value(drop, None) is True and dflow.canon(n.func.value) == ('param', d2d.params[0]):
+                    positional, how = True, 'reset_index(drop=True)'
+        for st in walk_no_nested(d2d.node):
+            # frame.index = pandas.RangeIndex(len(frame)) / numpy.arange(len(frame))
+            if isinstance(st, ast.Assign) and isinstance(st.targets[0], ast.Attribute) and st.targets[0].attr == 'index' and isinstance(st.value, ast.Call) \
+                    and (callee(ctx, d2d, st.value) or '') in ('pandas.RangeIndex', 'numpy.arange') and len(st.value.args) == 1 \
+                    and isinstance(st.value.args[0], ast.Call) and dotted(st.value.args[0].func) == 'len':
+                positional, how = True, norm_text(st)
+        ctx.check('R05.6', positional, "the table's own index is discarded in favour of row positions before conversion", d2d, tox[0], construct=f"_dataframe_to_dataset: {how}")
+        ed_ = ctx.func(f"{PX}.extract_dataframe")
+        eflow = ctx.flow(ed_)
+        conv = [c for c in calls_in(ed_) if callee(ctx, ed_, c) == f"{PX}._dataframe_to_dataset"]
+        mg_ = [c for c in method_calls(ed_, 'merge')]
+        ok = (len(conv) == 1 and len(mg_) == 1 and conv[0].args and eflow.canon(conv[0].args[0]) == ('param', ed_.params[1])
+              and mg_[0].args and eflow.resolve(mg_[0].args[0]) is conv[0]
+              and kwarg(conv[0], 'dimension_name') is not None and eflow.canon(kwarg(conv[0], 'dimension_name')) == ('param', 'point_dimension'))
+        ctx.check('R05.6', ok, "extract_dataframe merges exactly that positional table, on the point dimension", ed_, mg_[0] if mg_ else ed_.node)
+
+
 # --------------------------------------------------------------------------- checker self-test
 from ..variants import V  # noqa: E402
 
 _B = 'src/emsarray/conventions/_base.py'
 _P = 'src/emsarray/operations/point_extraction.py'
 VARIANTS = [
+    V('C05', 'table-keeps-own-index', 'src/emsarray/operations/point_extraction.py', "    dataframe = dataframe.reset_index(drop=True)", "    dataframe = dataframe.copy()", 'R05.6'),
     V('C05', 'sel-for-isel', _B, "        return dataset.isel(selector)", "        return dataset.sel(selector)", 'R05.1'),
     V('C05', 'column-reversed', _B, "            dimension: (index_dimension, index_array[:, i])", "            dimension: (index_dimension, index_array[:, -1 - i])", 'R05.1'),
     V('C05', 'dims-reversed', _B, "            for i, dimension in enumerate(dimensions)\n        })", "            for i, dimension in enumerate(reversed(dimensions))\n        })", 'R05.1'),
